@@ -3,7 +3,7 @@
 From Coq Require Import Permutation String.
 From Statham.Model Require Import Str Orderer Tables.
 From Statham.Generated Require Import Gen_orderer_paths.
-From Statham.Proofs Require Import StrFacts OrdererLoop OrdererSound OrdererWalk OrdererDirect OrdererReach Agree_orderer.
+From Statham.Proofs Require Import StrFacts OrdererLoop OrdererSound OrdererWalk OrdererDirect OrdererReach OrdererClosed Agree_orderer.
 
 (* The emission loop of orderer(): on every dependency map with unique keys that is
    closed (dependencies are keys and are transitive, which get_children's transitive
@@ -109,8 +109,45 @@ Theorem C11_orderer_direct : forall paths G roots l,
 Proof. exact orderer_direct. Qed.
 Print Assumptions C11_orderer_direct.
 
+(* END TO END, for every identity graph and root list on which the enumeration returns (always,
+   on well-formed graphs: C11_orderer_total) and whose object classes have unique names (the
+   routine's documented precondition; without it see C03-K25): the dependency map that
+   orderer() builds IS closed (dep_map_closed, from C11_walk_exact), so the premises of
+   C11_loop_topological are discharged from the graph itself:
+   - some object class reaches itself  =>  the schema-parse error, nothing else;
+   - otherwise  =>  an order listing every class name exactly once in which every class that
+     a class reaches, directly or through any chain of keyword positions, stands before it. *)
+Theorem C11_end_to_end : forall paths G roots ocs ps,
+  get_object_classes paths G roots = Some ocs -> dep_pairs paths G ocs = Some ps ->
+  (forall a b, In a ocs -> In b ocs -> class_name G a = class_name G b -> a = b) ->
+  ((exists c, In c ocs /\ reach paths G c c) -> orderer paths G roots = OSchemaParseError) /\
+  ((forall c, In c ocs -> ~ reach paths G c c) ->
+   exists l, orderer paths G roots = OOk l /\
+     Permutation l (keys (dict_of_pairs ps)) /\
+     forall c x, In c ocs -> reach paths G c x -> is_class G x = true ->
+       before (class_name G x) (class_name G c) l).
+Proof. exact orderer_end_to_end. Qed.
+Print Assumptions C11_end_to_end.
+
+Theorem C11_unique_names_checker : forall G ocs, uniq_namesb G ocs = true ->
+  forall a b, In a ocs -> In b ocs -> class_name G a = class_name G b -> a = b.
+Proof. exact uniq_namesb_sound. Qed.
+Print Assumptions C11_unique_names_checker.
+
 Local Open Scope string_scope.
 Local Open Scope list_scope.
+(* the premises hold on a graph with a shared class and an intermediate non-class node *)
+Example C11_end_to_end_nonvacuous :
+  let G := [ {| n_class := Some (s_ "A"); n_kids := [(s_ "properties.*.element", [1; 3])] |};
+             {| n_class := None; n_kids := [(s_ "items", [2])] |};
+             {| n_class := Some (s_ "B"); n_kids := [(s_ "additionalProperties", [3])] |};
+             {| n_class := Some (s_ "C"); n_kids := [] |} ] in
+  match get_object_classes Gen_orderer_paths.paths G [0] with
+  | Some ocs => uniq_namesb G ocs = true /\
+                orderer Gen_orderer_paths.paths G [0] = OOk [s_ "C"; s_ "B"; s_ "A"]
+  | None => False
+  end.
+Proof. vm_compute. split; reflexivity. Qed.
 Example C11_direct_nonvacuous :
   let G := [ {| n_class := Some (s_ "A"); n_kids := [(s_ "properties.*.element", [1; 2])] |};
              {| n_class := Some (s_ "B"); n_kids := [(s_ "items", [2])] |};
